@@ -5,7 +5,7 @@ from ..harness import scn, gen, obs as O, pyeval
 from . import base_scn
 
 pid = 'C03'
-gen_modules = ['tr_state', 'tr_validators', 'tr_has_patcher', 'tr_contracts', 'tr_decorators', 'tr_pin_contracts']
+gen_modules = ['tr_state', 'tr_validators', 'tr_has_patcher', 'tr_contracts', 'tr_decorators', 'tr_pin_contracts', 'tr_rest_validators', 'tr_rest_patcher', 'tr_rest_state', 'tr_rest_lintcontract']
 model_targets = ['Sem/Scenario.v']
 hand_modelled = ['coq/Py/Sig.v', 'coq/Sem/Model.v', 'coq/Core/Base.v: classes carry their MRO (computed by CPython for every scenario class)']
 explanation = ('Theorems about the except-block of the generated wrappers for arbitrary class tables; correspondence + monitor over random '
@@ -158,6 +158,10 @@ def admits_cases(tier, seed):
         for d in BUILTINS:
             cases.append({'decls': [[d]], 'raised': raised})
         cases.append({'decls': [[]], 'raised': raised})
+    # declared classes outside the Exception hierarchy: admitted by all three (the runtime cannot even catch them)
+    for decls, raised in ([['SystemExit']], 'SystemExit'), ([['KeyboardInterrupt']], 'KeyboardInterrupt'), ([['BaseException']], 'ValueError'), ([['BaseException']], 'SystemExit'), \
+                         ([['ValueError', 'SystemExit']], 'SystemExit'), ([['ValueError'], ['SystemExit']], 'SystemExit'), ([['GeneratorExit']], 'GeneratorExit'):
+        cases.append({'decls': decls, 'raised': raised})
     pairs = list(itertools.combinations(BUILTINS, 2))
     for d1, d2 in (pairs if tier == 'thorough' else rnd.sample(pairs, 12)):
         for raised in (BUILTINS if tier == 'thorough' else rnd.sample(BUILTINS, 4)):
